@@ -51,6 +51,10 @@ inductive Stmt
   | ite (c : Nat) (t : List Stmt) (e : List Stmt)
   | ret (e : Expr)
   | raise
+  /-- no action of the function: a hint of the extractor for the analysis at the head of the pass that stands for "all later
+  iterations" of a loop — every listed variable `x` may from here on also denote what `e` denotes (`x := x ∪ e`), applied again
+  and again until nothing grows (a fixpoint of the weak updates: re-binding chains of any depth, walks along links of any length) -/
+  | widen (ws : List (Nat × Expr))
   deriving Repr
 
 abbrev Prog := List Stmt
@@ -152,6 +156,33 @@ def closedUnder : List (Nat × Nat × Nat) → Nat → Bool
   | [], _ => true
   | (_, h, t) :: rest, c => (Nat.beq (h &&& c) 0 || Nat.beq (t ||| c) c) && closedUnder rest c
 
+/-- one round of weak updates `x := x ∪ e` (only for variables that are bound; nothing is allocated) -/
+def widenRound (links : List (Nat × Nat × Nat)) (must : List (Nat × Nat)) (next : Nat) :
+    List (Nat × Expr) → List (Nat × Ref) → List (Nat × Ref)
+  | [], env => env
+  | (x, e) :: rest, env =>
+    match lookup env x with
+    | some o => widenRound links must next rest ((x, ⟨o.mask ||| (eval env links must next e).1.mask, false⟩) :: env)
+    | none => widenRound links must next rest env
+
+/-- the region sets of the widened variables (to see whether a round changed anything) -/
+def widenMasks (env : List (Nat × Ref)) : List (Nat × Expr) → List Nat
+  | [] => []
+  | (x, _) :: rest => (match lookup env x with | some o => o.mask | none => 0) :: widenMasks env rest
+
+def natListBeq : List Nat → List Nat → Bool
+  | [], [] => true
+  | a :: as, b :: bs => Nat.beq a b && natListBeq as bs
+  | _, _ => false
+
+/-- rounds of weak updates until the region sets are stable; `false` if the fuel ran out first -/
+def widenFix (links : List (Nat × Nat × Nat)) (must : List (Nat × Nat)) (next : Nat) (ws : List (Nat × Expr)) :
+    Nat → List (Nat × Ref) → List (Nat × Ref) × Bool
+  | 0, env => (env, false)
+  | fuel + 1, env =>
+    match widenRound links must next ws env with
+    | env' => bif natListBeq (widenMasks env' ws) (widenMasks env ws) then (env', true) else widenFix links must next ws fuel env'
+
 mutual
 /-- one statement under the valuation `v` of the opaque conditions (bit `c` = condition `c`) -/
 def exec (v : Nat) : Stmt → AState → AState
@@ -184,6 +215,10 @@ def exec (v : Nat) : Stmt → AState → AState
     match eval s.env s.links s.must s.next e with
     | (r, n) => { s with next := n, result := some r, halted := true }
   | .raise, s => bif s.halted then s else { s with halted := true }
+  | .widen ws, s =>
+    bif s.halted then s else
+    match widenFix s.links s.must s.next ws (ws.length * (s.next + 1) + 1) s.env with
+    | (env', ok) => { s with env := env', overflow := s.overflow || !ok }
 
 def execList (v : Nat) : List Stmt → AState → AState
   | [], s => s
